@@ -29,6 +29,7 @@ func init() {
 			{ID: "C04.5", Desc: "all nominated fields compared", Run: ruleC04_5, MinSites: 2},
 			{ID: "C04.6", Desc: "nominated request fields read through all lines", Run: func(c *Ctx) { ruleRLIST(c, "C04.6", "<nominated>") }, MinSites: 1},
 			{ID: "C04.7", Desc: "matcher position refers to the caller's slice", Run: func(c *Ctx) { ruleMatcherIndex(c, "C04.7") }, MinSites: 1},
+			{ID: "C04.11", Desc: "tables of header field names are keyed by canonical names", Run: func(c *Ctx) { ruleHeaderTablesCanonical(c, "C04.11") }, MinSites: 1},
 		},
 	})
 }
